@@ -242,6 +242,51 @@ def lock_check(kinds, prop):
     return run
 
 
+def registration_check(prop):
+    """Structural obligations on the real expansions: every cache registers itself (metadata, clear callback, check
+    callback, statistics) under `name = ...` or the function name, with the tags / events / dependencies of its
+    attribute list in their own slots, and its statics are local items of the decorated function."""
+    def run(tier):
+        from . import expand, wrappers as W
+        res = dict(obligations={}, violations=[], undecided=[], functions=[], checker_cmds=['syntactic comparison of the macro expansion with the fixture attributes (python)'], trusted={}, notes=[])
+        try:
+            exp = expand.expand_fixtures()
+            attrs_all = W.parse_attrs()
+        except ExtractError as e:
+            res['undecided'].append('macro expansion: %s' % e)
+            return res
+        for name, attrs in sorted(attrs_all.items()):
+            try:
+                info = W.extract(exp, name, attrs)
+            except (ExtractError, ValueError, AttributeError) as e:
+                res['undecided'].append('fixture %s: %s' % (name, e))
+                continue
+            if info['scope'] == 'thread':
+                continue
+            expected = attrs.get('name') or name
+            regs = info['registrations']
+            checks = []
+            checks.append(('stats_registered_under_name', regs.get('stats_name') == expected, 'stats_registry::register(%r) vs expected %r' % (regs.get('stats_name'), expected), ['C15']))
+            cb = info['callbacks']
+            checks.append(('check_callback_registered_under_name', 'check' in cb and cb['check']['name'] == expected, 'register_invalidation_callback name %r vs expected %r' % (cb.get('check', {}).get('name'), expected), ['C13']))
+            has_meta = bool(attrs['tags'] or attrs['events'] or attrs['dependencies'])
+            if has_meta:
+                checks.append(('metadata_registered_under_name', regs.get('inval_name') == expected, 'register(%r) vs expected %r' % (regs.get('inval_name'), expected), ['C12']))
+                checks.append(('metadata_slots', regs.get('metadata') == [attrs['tags'], attrs['events'], attrs['dependencies']],
+                               'InvalidationMetadata::new(%r) vs attributes tags=%r events=%r dependencies=%r' % (regs.get('metadata'), attrs['tags'], attrs['events'], attrs['dependencies']), ['C12', 'C13']))
+                checks.append(('clear_callback_registered_under_name', 'clear' in cb and cb['clear']['name'] == expected, 'register_callback name %r vs expected %r' % (cb.get('clear', {}).get('name'), expected), ['C12']))
+            checks.append(('statics_local_to_function', info['local_statics'] >= 2, '%d cache statics declared inside the function' % info['local_statics'], ['C01', 'C12', 'C13']))
+            for label, ok, text, props in checks:
+                if prop not in props:
+                    continue
+                oname = 'expansion/%s::%s' % (name, label)
+                res['obligations'][oname] = 'structural'
+                if not ok:
+                    res['violations'].append(dict(obligation=oname, message=text, site='macro-expansion of fixtures/src/lib.rs fn %s' % name, rendered=text))
+        return res
+    return run
+
+
 def load_known():
     res = []
     p = os.path.join(VERIF, 'known_findings.txt')
